@@ -404,6 +404,8 @@ func family(alg string) string {
 }
 
 var fnSlug = map[string]string{
+	"seq.aeskw": "seq-aeskw", "seq.symmetric": "seq-symmetric", "seq.aescbcaead": "seq-aescbcaead",
+	"seq.padding": "seq-padding", "seq.signature": "seq-signature", "seq.rsa": "seq-rsa",
 	"padding.PadPKCS7": "pad-pkcs7", "padding.UnpadPKCS7": "unpad-pkcs7",
 	"aeskw.Wrap": "aeskw-wrap", "aeskw.Unwrap": "aeskw-unwrap",
 	"aescbcaead.New": "aescbcaead-new", "aescbcaead.Seal": "aescbcaead-seal", "aescbcaead.Open": "aescbcaead-open",
@@ -415,7 +417,7 @@ var fnSlug = map[string]string{
 // findingID is the class of a frame violation: function (+ algorithm family) and the region hit.
 func findingID(c *Case, buf, i int) string {
 	id := fnSlug[c.Fn]
-	if strings.HasPrefix(c.Fn, "crypto.") && c.Fn != "crypto.ParseKey" {
+	if (strings.HasPrefix(c.Fn, "crypto.") && c.Fn != "crypto.ParseKey") || c.Fn == "seq.symmetric" || c.Fn == "seq.signature" || c.Fn == "seq.rsa" {
 		id += "-" + family(c.Alg)
 	}
 	reg := region(c, buf, i)
